@@ -106,17 +106,33 @@ GEN_SPEC += [
 ]
 
 
+GEN_FILE_LOOP = os.path.join(vlib.COQ, 'C16', 'Gen_loop.v')
+GEN_SPEC_LOOP = [
+    ('Loop.flatten_and_balance', [
+        ('i', 'i', 'Z'), ('len(self)', 'n', 'Z'), ('sub_program.depth()', 'sd', 'Z'), ('depth', 'd', 'Z'),
+        ('sub_program.is_balanced()', 'bal', 'bool'),
+        ('sub_program._has_single_child_that_can_be_merged()', 'mergeable', 'bool'),
+        ('sub_program.is_leaf()', 'leaf', 'bool')], 6),
+    ('Loop._has_single_child_that_can_be_merged!returns', [
+        ('len(self)', 'n', 'Z'), ('self._measurements', 'meas', 'bool'), ('child.repetition_count', 'cr', 'Z'),
+        ('child.volatile_repetition', 'cvol', 'bool')], 3),
+]
+
+
 def pregen(ctx):
     import sys
     sys.path.insert(0, os.path.join(vlib.VERIF, 'translate'))
     import py2gallina_c16
-    src = os.path.join(vlib.REPO, 'qupulse/_program/tabor.py')
-    ob = 'translate:qupulse/_program/tabor.py::decisions(_check_merge_with_next,_check_partial_unroll,prepare_program_for_advanced_sequence_mode,_calc_sampled_segments,__init__,setup_single_sequence_mode,setup_advanced_sequence_mode)'
-    try:
-        vlib.write_if_changed(GEN_FILE, py2gallina_c16.translate_decisions(src, GEN_SPEC) + '\n')
-        return [{'name': ob, 'ok': True, 'detail': 'translated (%d tests)' % sum(n for _, _, n in GEN_SPEC)}]
-    except Exception as e:   # Unsupported, SyntaxError, ...
-        return [{'name': ob, 'ok': False, 'detail': 'translator refused the current source: %s' % e}]
+    out = []
+    for rel, spec, target in (('qupulse/_program/tabor.py', GEN_SPEC, GEN_FILE),
+                              ('qupulse/program/loop.py', GEN_SPEC_LOOP, GEN_FILE_LOOP)):
+        ob = 'translate:%s::decisions(%s)' % (rel, ','.join(f.split('.')[-1].split('!')[0] for f, _, _ in spec))
+        try:
+            vlib.write_if_changed(target, py2gallina_c16.translate_decisions(os.path.join(vlib.REPO, rel), spec) + '\n')
+            out.append({'name': ob, 'ok': True, 'detail': 'translated (%d tests)' % sum(n for _, _, n in spec)})
+        except Exception as e:   # Unsupported, SyntaxError, ...
+            out.append({'name': ob, 'ok': False, 'detail': 'translator refused the current source: %s' % e})
+    return out
 
 
 CH_NAMES = ['A', 'B', 'M', 'N', 'X']
@@ -635,7 +651,8 @@ def leaves(loop):
 
 def flatten_tree(t):
     rep, _, w, ch = t[:4]
-    once = [w] if not ch else [x for c in ch for x in flatten_tree(c)]
+    # a node without children and without waveform (left behind when 0-count children were unrolled away) plays nothing
+    once = ([] if w is None else [w]) if not ch else [x for c in ch for x in flatten_tree(c)]
     return once * max(rep, 0)
 
 
@@ -1125,9 +1142,10 @@ MANIFEST = {
                   'raised; left_behind) is in the input domain again and plays the same leaves, so an accepted second '
                   'compilation with any configuration plays the ORIGINAL specification (C16_recompile_plays_any); the '
                   'executable model of the in-place effect (tree_after) is compared with the real Loop object.  '
-                  'Source tie: the 36 if / elif / while / assert tests of _check_merge_with_next, '
+                  'Source tie: the 45 if / elif / while / assert tests (and predicate results) of _check_merge_with_next, '
                   '_check_partial_unroll, prepare_program_for_advanced_sequence_mode, _calc_sampled_segments, '
-                  'TaborProgram.__init__ and setup_single / setup_advanced_sequence_mode are '
+                  'TaborProgram.__init__, setup_single / setup_advanced_sequence_mode (tabor.py), '
+                  'Loop.flatten_and_balance and Loop._has_single_child_that_can_be_merged (loop.py) are '
                   'translated from the current source on every run (translate/py2gallina_c16.py, fail-closed) and the '
                   'model functions are proved equal to skeletons that take all their decisions from the translated '
                   'tests (C16_source_*).  C16_spec_cached_eq: the '
